@@ -27,6 +27,20 @@ every mutation exit 1 with a minimised replay, every harmless rewrite exit 0):
   H1 C04  call(): record built in a local and stored with dict.update()      silent (exit 0)
   H2 C11  `_unsubscribe`: scount = sum(1 for _ in list); `if not scount`     silent (exit 0)
 The minimised witnesses are kept in corpus/C04, corpus/C11 and replayed first on every run.
+
+After the repairs of F8 / F9 / F10 in /repo (8b7d7882, 156d2c77, a7a5033b) the model follows the repaired code and
+`dispatch_exact` / `progress_only_own_handler` are full theorems; re-run with tools_selftest_sess.py (extended session
+model, 2026-09-23): re-introducing each defect is reported again (exit 1) —
+  c04-f10-reintroduced                                       exit 1  keys: result:progressive-details-without-args-or-kwargs-raises-TypeError
+      replay: open m.welcome,7 call,1,a,k,op=1/d=t,ok m.result,1,a1,n,1
+  c04-m1-published-get-instead-of-pop                        exit 1  keys: m.published:raise:ProtocolError-expected-got-no-raise
+      replay: open m.welcome,4 pub,6,a1,k1=2.3=4,oack=t,ok m.published,1,102 m.published,1,103
+  c11-f8-reintroduced                                        exit 1  keys: event:details-of-another-handler-in-kwargs
+      replay: open m.welcome,7 sub,1,9,oda=0,ok sub,2,9,n,ok m.subscribed,1,77 m.subscribed,2,77 m.event,77,1,a1,k5=2
+  c11-f9-reintroduced                                        exit 1  keys: event:handler-skipped-after-synchronous-unsubscribe
+      replay: open m.welcome,7 sub,1,9,n,ok sub,2,9,n,ok sub,3,9,n,ok m.subscribed,1,77 m.subscribed,2,77 m.subscribed,3,77 m.event,77,1,a1,n;r!r+unsub,0,ok
+  c11-m6-reversed-dispatch                                   exit 1  keys: event:handler-called-unexpectedly, event:handler-order
+      replay: open m.welcome,7 sub,1,9,n,ok sub,2,9,n,ok sub,3,9,n,ok m.subscribed,1,77 m.subscribed,2,77 m.subscribed,3,77 m.event,77,1,a1,n;r!r+unsub,0,ok
 """
 import itertools
 
